@@ -334,7 +334,13 @@ def index(it, st, obj: V, idx: V, node) -> V:
     if isinstance(obj, VBytes):
         raise Unsupported("bytes[int]")
     if isinstance(obj, VDict):
-        k = py_key(idx)
+        try:
+            k = py_key(idx)
+        except Unsupported:
+            r = dict_lookup_symbolic(it, st, obj, idx, node)
+            if eng.branch(st, r.none, f"key-missing@{node.lineno}"):
+                eng.raise_(st, "KeyError", tag={"site": it.site(node)})
+            return r.val
         if k not in obj.items:
             eng.raise_(st, "KeyError", tag={"site": it.site(node)})
         return obj.items[k]
@@ -428,6 +434,18 @@ def comprehension(it, st, node, flavour: str) -> V:
                 st.env.pop(n, None)
 
 
+def _is_eta_hdr(t, x):
+    """mk_hdr(hk(x), hv(x)) is x (datatype eta rule)"""
+    t = z3.simplify(t)
+    if z3.is_app(t) and t.decl().name() == "mk_hdr" and t.num_args() == 2:
+        a, b = t.arg(0), t.arg(1)
+        return (
+            z3.is_app(a) and a.decl().name() == "hk" and z3.eq(a.arg(0), x)
+            and z3.is_app(b) and b.decl().name() == "hv" and z3.eq(b.arg(0), x)
+        )
+    return False
+
+
 class FilterMap:
     """Structural record of r = [E(x) for x in s if P(x)] (kept for contracts)."""
 
@@ -437,6 +455,110 @@ class FilterMap:
         self.P = P
         self.E = E
         self.elem_kind = elem_kind
+
+
+# -- named (uninterpreted) quantifier abstraction -----------------------------------------------
+# `exists x in s. B(x, params)` and `[E(x) for x in s if P(x)]` are represented by uninterpreted
+# functions named after the normalised body with its x-free maximal subterms abstracted as
+# parameters.  Equal bodies (up to z3 simplification) give the same function symbol, so code and
+# specification meet syntactically; different bodies are unrelated symbols (sound: only
+# provability is lost).  Concat / Unit / Empty sources are unfolded by definition.
+
+_NAMED: dict = {}
+
+
+def _contains_const(t, x):
+    if z3.eq(t, x):
+        return True
+    return any(_contains_const(c, x) for c in t.children())
+
+
+def _abstract(body, x):
+    """-> (canonical key, params list)"""
+    params = []
+
+    def find(t):
+        if not _contains_const(t, x):
+            if z3.is_int_value(t) or z3.is_true(t) or z3.is_false(t):
+                return t  # tiny literals stay in the body
+            for i, p in enumerate(params):
+                if z3.eq(p, t):
+                    return z3.Const(f"$p{i}", t.sort())
+            params.append(t)
+            return z3.Const(f"$p{len(params) - 1}", t.sort())
+        if z3.eq(t, x):
+            return z3.Const("$bx", x.sort())
+        if z3.is_app(t) and t.num_args() > 0:
+            kids = [find(c) for c in t.children()]
+            try:
+                return t.decl()(*kids)
+            except Exception:
+                return z3.substitute(t, *[(c, k) for c, k in zip(t.children(), kids)])
+        return t
+
+    canon = find(z3.simplify(body))
+    return canon, params
+
+
+def _named_fn(prefix, key, dom, rng):
+    if key not in _NAMED:
+        _NAMED[key] = z3.Function(f"{prefix}_{len(_NAMED)}", *dom, rng)
+    return _NAMED[key]
+
+
+def _seq_parts(t):
+    """decompose a Seq term into ('concat', parts) / ('unit', elem) / ('empty',) / ('atom', t)"""
+    if z3.is_app(t):
+        k = t.decl().kind()
+        if k == z3.Z3_OP_SEQ_CONCAT:
+            return ("concat", list(t.children()))
+        if k == z3.Z3_OP_SEQ_UNIT:
+            return ("unit", t.arg(0))
+        if k == z3.Z3_OP_SEQ_EMPTY:
+            return ("empty",)
+    return ("atom", t)
+
+
+def exists_in(src_t, x, body):
+    """z3 Bool for  exists x in src. body  (x: z3 const of the element sort)"""
+    body = z3.simplify(body) if not isinstance(body, bool) else z3.BoolVal(body)
+    if z3.is_false(body):
+        return z3.BoolVal(False)
+    # distribute over disjunction so that  any(a or b)  meets  has(a) or has(b)
+    if z3.is_or(body):
+        return z3.Or(*[exists_in(src_t, x, c) for c in body.children()])
+    parts = _seq_parts(z3.simplify(src_t))
+    if parts[0] == "concat":
+        return z3.Or(*[exists_in(p, x, body) for p in parts[1]])
+    if parts[0] == "unit":
+        return z3.substitute(body, (x, parts[1]))
+    if parts[0] == "empty":
+        return z3.BoolVal(False)
+    canon, params = _abstract(body, x)
+    key = ("ex", canon.sexpr(), str(x.sort()), tuple(str(p.sort()) for p in params))
+    f = _named_fn("ex", key, [src_t.sort()] + [p.sort() for p in params], BoolS)
+    return f(parts[1], *params)
+
+
+def filter_map(src_t, x, P, E, out_sort):
+    """z3 Seq term for [E(x) for x in src if P(x)]"""
+    P = z3.simplify(P) if not isinstance(P, bool) else z3.BoolVal(P)
+    E = z3.simplify(E)
+    if z3.is_true(P) and (z3.eq(E, x) or _is_eta_hdr(E, x)):
+        return src_t
+    parts = _seq_parts(z3.simplify(src_t))
+    if parts[0] == "concat":
+        return z3.Concat(*[filter_map(p, x, P, E, out_sort) for p in parts[1]])
+    if parts[0] == "unit":
+        h = parts[1]
+        return z3.If(z3.substitute(P, (x, h)), z3.Unit(z3.substitute(E, (x, h))), z3.Empty(z3.SeqSort(out_sort)))
+    if parts[0] == "empty":
+        return z3.Empty(z3.SeqSort(out_sort))
+    pair = z3.If(P, z3.Unit(E), z3.Empty(z3.SeqSort(out_sort)))
+    canon, params = _abstract(pair, x)
+    key = ("fm", canon.sexpr(), str(x.sort()), tuple(str(p.sort()) for p in params))
+    f = _named_fn("fm", key, [src_t.sort()] + [p.sort() for p in params], z3.SeqSort(out_sort))
+    return f(parts[1], *params)
 
 
 def symbolic_comprehension(it, st, node, gen, src: VSeq, flavour: str) -> V:
@@ -453,66 +575,32 @@ def symbolic_comprehension(it, st, node, gen, src: VSeq, flavour: str) -> V:
         raise Unsupported("comprehension body added path constraints")
     if flavour in ("gen", "set"):
         # consumed by any()/set(): hand back the structure
-        g = VGen("comp", FilterMap(src, x, P, ev, getattr(ev, "kind", "?")))
-        return g
+        return VGen("comp", FilterMap(src, x, P, ev, getattr(ev, "kind", "?")))
     # list result
     if isinstance(ev, VTuple) and len(ev.items) == 2:
         ev = eng.coerce(st, ev, "hdr")
     if not hasattr(ev, "t"):
         raise Unsupported(f"{it.site(node)}: comprehension element {ev!r}")
     ek = ev.kind
-    r = z3.Const(f"comp!{tag}", z3.SeqSort(sort_of_kind(ek)))
-    rv = VSeq(r, ek)
     Pz = eng.z_bool(P)
+    r = filter_map(src.t, x, Pz, ev.t, sort_of_kind(ek))
+    rv = VSeq(r, ek)
     fm = FilterMap(src, x, Pz, ev, ek)
     st.ghost.setdefault("fm", []).append((r, fm))
-    # defining facts (sound consequences of the definition)
-    facts = [z3.Length(r) <= z3.Length(src.t), z3.Length(r) >= 0]
-    y = z3.Const(f"cy!{tag}", sort_of_kind(ek))
-    # membership: y in r  <=>  exists x in src. P(x) and E(x) = y
-    identity_map = z3.eq(z3.simplify(ev.t), x)
-    if identity_map:
-        facts.append(
-            z3.ForAll(
-                [x],
-                z3.Contains(r, z3.Unit(x)) == z3.And(z3.Contains(src.t, z3.Unit(x)), Pz),
-            )
-        )
-        # order: first element of r is the first element of src satisfying P
-        j = z3.Int(f"cj!{tag}")
-        k = z3.Int(f"ck!{tag}")
+    # sound consequences of the definition that the callers in this package rely on
+    facts = [z3.Length(r) <= z3.Length(src.t)]
+    if z3.eq(z3.simplify(ev.t), x) or _is_eta_hdr(ev.t, x):
+        # a filter: the first kept element is an element of the source that satisfies P;
+        # an empty result means no element of interest satisfies P (instantiated on demand by
+        # contracts through st.ghost['fm'])
         facts.append(
             z3.Implies(
                 z3.Length(r) > 0,
-                z3.And(
-                    j >= 0,
-                    j < z3.Length(src.t),
-                    src.t[j] == r[0],
-                    z3.substitute(Pz, (x, r[0])),
-                    z3.ForAll([k], z3.Implies(z3.And(k >= 0, k < j), z3.Not(z3.substitute(Pz, (x, src.t[k]))))),
-                ),
+                z3.And(z3.Contains(src.t, z3.Unit(r[0])), z3.substitute(Pz, (x, r[0]))),
             )
         )
-        facts.append((z3.Length(r) == 0) == z3.ForAll([x], z3.Implies(z3.Contains(src.t, z3.Unit(x)), z3.Not(Pz))))
-    else:
-        facts.append(
-            z3.ForAll(
-                [x],
-                z3.Implies(z3.And(z3.Contains(src.t, z3.Unit(x)), Pz), z3.Contains(r, z3.Unit(ev.t))),
-            )
-        )
-        if z3.is_true(z3.simplify(Pz)):
-            facts.append(z3.Length(r) == z3.Length(src.t))
-            k = z3.Int(f"ck!{tag}")
-            facts.append(
-                z3.ForAll(
-                    [k],
-                    z3.Implies(
-                        z3.And(k >= 0, k < z3.Length(src.t)),
-                        r[k] == z3.substitute(ev.t, (x, src.t[k])),
-                    ),
-                )
-            )
+    elif z3.is_true(z3.simplify(Pz)):
+        facts.append(z3.Length(r) == z3.Length(src.t))
     for f in facts:
         eng.assume(st, f)
     return rv
@@ -568,6 +656,13 @@ def bi_isinstance(it, st, args, kwargs, node):
     classes = cls.items if isinstance(cls, VTuple) else [cls]
     names = []
     for c in classes:
+        if isinstance(c, VRef):
+            # sentinel "types" (h11.PAUSED / NEED_DATA are their own type): registered by sidecars
+            sn = eng.reg.__dict__.get("sentinel_classes", {}).get(_const_int(c.t))
+            if sn is None:
+                raise Unsupported(f"{it.site(node)}: isinstance against {c!r}")
+            names.append(sn)
+            continue
         if not isinstance(c, VClass):
             raise Unsupported(f"{it.site(node)}: isinstance against {c!r}")
         names.append(c.name)
@@ -603,6 +698,9 @@ def bi_isinstance(it, st, args, kwargs, node):
             hook = h.get(n)
             if hook is not None:
                 parts.append(hook(it, st, v))
+                continue
+            if n in pykinds or n in ("typing.Mapping", "typing.Sequence"):
+                parts.append(False)  # an object reference is not a builtin scalar / container
                 continue
             # static class knowledge first
             if eng.classes.issub(v.cls, n):
@@ -653,7 +751,7 @@ def bi_set(it, st, args, kwargs, node):
 
         def member(eng_, st_, y, fm=fm):
             yv = eng_.coerce(st_, y, fm.E.kind)
-            return z3.Exists([fm.x], z3.And(z3.Contains(fm.src.t, z3.Unit(fm.x)), eng_.z_bool(fm.P), fm.E.t == yv.t))
+            return exists_in(fm.src.t, fm.x, z3.And(eng_.z_bool(fm.P), fm.E.t == yv.t))
 
         s = VSet(member, fm.E.kind)
         s.fm = fm
@@ -669,7 +767,7 @@ def bi_any(it, st, args, kwargs, node):
     if isinstance(v, VGen) and v.name == "comp":
         fm = v.payload
         t = eng.truthy(st, fm.E)
-        return VBool(z3.Exists([fm.x], z3.And(z3.Contains(fm.src.t, z3.Unit(fm.x)), eng.z_bool(fm.P), eng.z_bool(t))))
+        return VBool(exists_in(fm.src.t, fm.x, z3.And(eng.z_bool(fm.P), eng.z_bool(t))))
     raise Unsupported(f"{it.site(node)}: any({v!r})")
 
 
@@ -875,7 +973,13 @@ def call_builtin_method(it, st, recv: V, name: str, args, kwargs, node) -> V:
             enc = const_str(args[0].t) if args else "utf-8"
             if enc != "ascii":
                 raise Unsupported(f"encode({enc})")
-            is_ascii = z3.Function("is_ascii_str", StrS, BoolS)(recv.t)
+            lit = const_str(recv.t)
+            if lit is not None:
+                is_ascii = all(ord(ch) < 128 for ch in lit)
+                if is_ascii:
+                    return VBytes(lit.encode("ascii"))
+            else:
+                is_ascii = z3.Function("is_ascii_str", StrS, BoolS)(recv.t)
             if not eng.branch(st, is_ascii, f"is-ascii@{node.lineno}"):
                 eng.raise_(st, "UnicodeEncodeError")
             return VBytes(encode_ascii(recv.t))
@@ -907,7 +1011,13 @@ def call_builtin_method(it, st, recv: V, name: str, args, kwargs, node) -> V:
             try:
                 k = py_key(args[0])
             except Unsupported:
-                raise
+                r = dict_lookup_symbolic(it, st, recv, args[0], node)
+                if len(args) > 1 and not isinstance(args[1], VNone):
+                    d = args[1]
+                    if d.kind != r.val.kind:
+                        raise Unsupported("dict.get default of another kind")
+                    return wrap(d.kind, z3.If(r.none, d.t, r.val.t))
+                return r
             if k in recv.items:
                 return recv.items[k]
             return args[1] if len(args) > 1 else NONE
@@ -929,6 +1039,30 @@ def call_builtin_method(it, st, recv: V, name: str, args, kwargs, node) -> V:
             eng.raise_(st, "AttributeError")
         return call_builtin_method(it, st, recv.val, name, args, kwargs, node)
     raise Unsupported(f"{it.site(node)}: method {name} on {recv!r}")
+
+
+def dict_lookup_symbolic(it, st, d: VDict, key: V, node) -> VOpt:
+    """lookup of a symbolic key in a dict with concrete keys: Optional(ite chain)"""
+    eng = it.eng
+    vals = list(d.items.values())
+    if not vals:
+        return VOpt(True, VInt(0))
+    kind = vals[0].kind
+    if any(v.kind != kind for v in vals) or not hasattr(vals[0], "t"):
+        raise Unsupported(f"{it.site(node)}: symbolic key into heterogeneous dict")
+    res = None
+    conds = []
+    for k, v in reversed(list(d.items.items())):
+        c = eng.z_bool(eng.eq(st, key, _key_value(k)))
+        conds.append(c)
+        res = v.t if res is None else z3.If(c, v.t, res)
+    none = z3.Not(z3.Or(*conds)) if conds else z3.BoolVal(True)
+    # first match wins: rebuild in forward order
+    res = None
+    for k, v in reversed(list(d.items.items())):
+        c = eng.z_bool(eng.eq(st, key, _key_value(k)))
+        res = v.t if res is None else z3.If(c, v.t, res)
+    return VOpt(none, wrap(kind, res))
 
 
 def _key_value(k):
